@@ -22,7 +22,7 @@ def cases(tier, seed):
     for ch in ("bsc", "bec", "z"):
         for p in PS:
             for alpha in ("01", "pm1"):
-                for dt in ("float32", "float64", "int64", "bool"):
+                for dt in ("float32", "float64", "float16", "bfloat16", "int64", "bool"):
                     if dt == "bool" and alpha == "pm1":
                         continue
                     yield f"C12|{ch}|p={p},{alpha},{dt}", {"ch": ch, "p": p, "alpha": alpha, "dt": dt, "Ls": Ls}
